@@ -14,16 +14,16 @@ limitations under the License.
 package ttlcache
 
 import (
+	"sync"
 	"sync/atomic"
 	"time"
 
-	"github.com/alphadose/haxmap"
 	kclock "k8s.io/utils/clock"
 )
 
 // Cache is an efficient cache with a TTL.
 type Cache[V any] struct {
-	m         *haxmap.Map[string, cacheEntry[V]]
+	m         *store[V]
 	clock     kclock.WithTicker
 	stopped   atomic.Bool
 	runningCh chan struct{}
@@ -50,11 +50,11 @@ type CacheOptions struct {
 
 // NewCache returns a new cache with a TTL.
 func NewCache[V any](opts CacheOptions) *Cache[V] {
-	var m *haxmap.Map[string, cacheEntry[V]]
+	m := &store[V]{}
 	if opts.InitialSize > 0 {
-		m = haxmap.New[string, cacheEntry[V]](uintptr(opts.InitialSize))
+		m.m = make(map[string]cacheEntry[V], opts.InitialSize)
 	} else {
-		m = haxmap.New[string, cacheEntry[V]]()
+		m.m = make(map[string]cacheEntry[V])
 	}
 
 	if opts.CleanupInterval <= 0 {
@@ -139,6 +139,54 @@ func (c *Cache[V]) Reset() {
 	})
 
 	c.m.Del(keys...)
+}
+
+// store is the map behind the cache: a plain map under a read-write lock.
+// (The lock-free map used before, haxmap v1.3.1, does not keep its bucket index
+// consistent with its list when Set and Del run concurrently: live keys became
+// unreachable for good, Get returned deleted and superseded values, and Len could
+// go below zero.)
+type store[V any] struct {
+	mu sync.RWMutex
+	m  map[string]cacheEntry[V]
+}
+
+func (s *store[V]) Get(key string) (cacheEntry[V], bool) {
+	s.mu.RLock()
+	v, ok := s.m[key]
+	s.mu.RUnlock()
+	return v, ok
+}
+
+func (s *store[V]) Set(key string, v cacheEntry[V]) {
+	s.mu.Lock()
+	s.m[key] = v
+	s.mu.Unlock()
+}
+
+func (s *store[V]) Del(keys ...string) {
+	s.mu.Lock()
+	for _, k := range keys {
+		delete(s.m, k)
+	}
+	s.mu.Unlock()
+}
+
+// ForEach calls fn for every entry until it returns false. fn must not call back into the store.
+func (s *store[V]) ForEach(fn func(string, cacheEntry[V]) bool) {
+	s.mu.RLock()
+	defer s.mu.RUnlock()
+	for k, v := range s.m {
+		if !fn(k, v) {
+			return
+		}
+	}
+}
+
+func (s *store[V]) Len() int {
+	s.mu.RLock()
+	defer s.mu.RUnlock()
+	return len(s.m)
 }
 
 func (c *Cache[V]) startBackgroundCleanup(d time.Duration) {
